@@ -5,9 +5,9 @@ set -u
 REF=${1:-HEAD}
 D=/work/repo-test-$$
 git -C /repo worktree add -q --detach $D $REF || exit 2
-cmake -G Ninja -S $D -B $D/_build -DAMGCL_BUILD_TESTS=ON -DCMAKE_BUILD_TYPE=RelWithDebInfo -DCMAKE_CXX_FLAGS=-Wno-error > $D/cmake.log 2>&1 || { tail -20 $D/cmake.log; git -C /repo worktree remove --force $D; exit 2; }
-cmake --build $D/_build -j 16 > $D/build.log 2>&1 || { tail -40 $D/build.log; git -C /repo worktree remove --force $D; exit 2; }
-OMP_NUM_THREADS=${TEST_OMP:-4} ctest --test-dir $D/_build -j${TEST_J:-4} --timeout ${TEST_TIMEOUT:-900} 2>&1 | tail -30
+cmake -G Ninja -S $D -B $D/_vbuild -DAMGCL_BUILD_TESTS=ON -DCMAKE_BUILD_TYPE=RelWithDebInfo -DCMAKE_CXX_FLAGS=-Wno-error > $D/cmake.log 2>&1 || { tail -20 $D/cmake.log; git -C /repo worktree remove --force $D; exit 2; }
+cmake --build $D/_vbuild -j 16 > $D/build.log 2>&1 || { tail -40 $D/build.log; git -C /repo worktree remove --force $D; exit 2; }
+OMP_NUM_THREADS=${TEST_OMP:-4} ctest --test-dir $D/_vbuild -j${TEST_J:-4} --timeout ${TEST_TIMEOUT:-900} 2>&1 | tail -30
 rc=${PIPESTATUS[0]}
 git -C /repo worktree remove --force $D
 exit $rc
